@@ -54,13 +54,15 @@ HARNESSES_LHNEW = [
        [S_LEN, S_BUILD], "read_offset_table", tier=tier)
     for m, inst, n, tier in [("lh5", "REAL_LH5", 15, "both"), ("lh7", "REAL_LH7", 31, "both"), ("lk7", "REAL_LK7", 63, "both")]
 ] + [
-    lh("codetab.lh5", "harness_codetab", ["REAL_LH5", "H_CODETAB", "STUB_WALK", "STUB_BUILD", "KSYM=3"], {TD: ["build_tree", "read_from_tree"]},
-       {"read_code_table.0": 513, "read_code_table.1": 6},
-       "read_code_table at the real NUM_CODES 510: arbitrary n (9 bits, clamped), arbitrary temp symbols 0..31 and skip counts, up to 4 loop rounds (every start index i < 510 of a round is reached within 3 rounds by zero runs)",
-       [S_WALK, S_BUILD], "read_code_table,read_skip_count", timeout=600, mem_gb=6, flags=["--arrays-uf-always"]),
-    lh("codetab.lk7", "harness_codetab", ["REAL_LK7", "H_CODETAB", "STUB_WALK", "STUB_BUILD", "KSYM=3"], {TD: ["build_tree", "read_from_tree"]},
-       {"read_code_table.0": 292, "read_code_table.1": 6},
-       "read_code_table at the real NUM_CODES 289 of -lk7-: as codetab.lh5", [S_WALK, S_BUILD], "read_code_table,read_skip_count", timeout=600, mem_gb=6, flags=["--arrays-uf-always"]),
+] + [
+    lh("codetab.%s.k%d" % (m, k), "harness_codetab", [inst, "H_CODETAB", "STUB_WALK", "STUB_BUILD", "KSYM=%d" % k], {TD: ["build_tree", "read_from_tree"]},
+       {"read_code_table.0": nc + 3, "read_code_table.1": k + 3},
+       "read_code_table at the real NUM_CODES %d of %s: arbitrary n (9 bits, clamped), arbitrary temp symbols 0..31 and skip counts, %d writing loop rounds "
+       "(zero runs reach every start index: 0 in round 1; 1, 3..18, 20.. in round 2; every i >= 2 in round 3)" % (nc, m, k),
+       [S_WALK, S_BUILD], "read_code_table,read_skip_count", timeout=to, mem_gb=6, flags=["--slice-formula"], tier=tier)
+    for m, inst, nc, k, tier, to in [("lh5", "REAL_LH5", 510, 2, "both", 600), ("lh5", "REAL_LH5", 510, 3, "thorough", 1800),
+                                     ("lk7", "REAL_LK7", 289, 3, "both", 600)]
+] + [
     lh("codetab.nc24", "harness_codetab", ["HB=9", "OB=4", "NC=24", "H_CODETAB", "STUB_WALK", "STUB_BUILD"], {TD: ["build_tree", "read_from_tree"]},
        {"read_code_table.0": 27, "read_code_table.1": 27},
        "read_code_table with the template instantiated at NUM_CODES 24: fully unrolled, any number of rounds", [S_WALK, S_BUILD], "read_code_table,read_skip_count"),
